@@ -66,6 +66,17 @@ function p.strdelete(frame)
   getmetatable("").__index.len = nil
   return tostring(ok) .. tostring(r)
 end
+function p.envpush(frame)
+  -- leaves an extra entry on the host's stack of module environments
+  local old = G_PUSHED; G_PUSHED = (G_PUSHED or 0) + 1
+  pcall(function() _python_append_env(_G) end)
+  return tostring(old)
+end
+function p.envpush2(frame)
+  local old = G_PUSHED2; G_PUSHED2 = (G_PUSHED2 or 0) + 1
+  pcall(function() _python_append_env(_G); _python_append_env({}) end)
+  return tostring(old)
+end
 function p.gfunc(frame)
   local before = tostring(rawget(_G, "helperfn"))
   function helperfn() return 1 end
@@ -88,7 +99,8 @@ CHANNELS = {
     "os_tbl": "nil", "mw_global": "nil", "mw_require": "nil",
     "mw_text": "nil", "mw_ustring": "nil", "package_loaded": "nil",
     "loaddata": "nil", "loadjson": "0", "retained": "1", "required": "1", "redefine": "XY",
-    "gfunc": "nil", "strdelete": "truecba2",
+    "gfunc": "nil", "strdelete": "truecba2", "envpush": "nil",
+    "envpush2": "nil",
 }
 
 TEMPLATES = {
